@@ -1141,6 +1141,48 @@ def check_forwarding_exact(ix, rep, rule='R-FWD'):
                              '(2.7182818 -> 2.71828), so a constant declared through the API is no longer the literal it stands for' % (mname, ast.unparse(a), why), c.lineno)
                 else:
                     rep.ok(rule, f.module.rel, f.qual, slot, 'forwarded without a lossy rendering', c.lineno)
+    # second stage: what the ast's own entry methods (the ones the specification forwards to) store of their parameters
+    absast = ix.find_class('rtamt.syntax.ast.parser.abstract_ast_parser', 'AbstractAst')
+    for mname, f in sorted(absast.methods.items()):
+        if mname not in spec.methods or mname.startswith('__'):
+            continue
+        params = {a.arg for a in f.node.args.args[1:]}
+        if not params:
+            continue
+        binds = {}
+        for st in ast.walk(f.node):
+            if isinstance(st, ast.Assign):
+                for t in st.targets:
+                    if isinstance(t, ast.Name):
+                        binds.setdefault(t.id, []).append(st.value)
+            elif isinstance(st, ast.AugAssign) and isinstance(st.target, ast.Name):
+                binds.setdefault(st.target.id, []).append(st.value)
+
+        def chain_of(e, depth=0):
+            out = [e]
+            if depth < 3:
+                for x in ast.walk(e):
+                    if isinstance(x, ast.Name) and x.id in binds:
+                        for v in binds[x.id]:
+                            out.extend(chain_of(v, depth + 1))
+            return out
+        for st in ast.walk(f.node):
+            if isinstance(st, ast.Assign) and any(isinstance(t, (ast.Subscript, ast.Attribute)) and ast.unparse(t).startswith('self.') for t in st.targets):
+                ch = chain_of(st.value)
+                if not any(isinstance(x, ast.Name) and x.id in params for e in ch for x in ast.walk(e)):
+                    continue
+                n += 1
+                rep.analysed(f)
+                tgt = next(ast.unparse(t) for t in st.targets if isinstance(t, (ast.Subscript, ast.Attribute)))
+                slot = 'ast.%s:%s' % (mname, tgt.split('[')[0])
+                why = None
+                for e in ch:
+                    why = why or _lossy_conversion(e)
+                if why:
+                    rep.fail(rule, f.module.rel, f.qual, slot, '%s() stores `%s` after passing its argument through %s: a value with more digits than the rendering keeps is stored changed '
+                             '(1048577 -> 1.04858e+06), so a constant declared through the API is no longer the literal it stands for' % (mname, ast.unparse(st.value)[:60], why), st.lineno)
+                else:
+                    rep.ok(rule, f.module.rel, f.qual, slot, 'stored without a lossy rendering', st.lineno)
     return n
 
 
